@@ -44,6 +44,7 @@ type progOpts struct {
 	MinimizeStackMemory bool `json:"msm"`
 	NoContext           bool `json:"noctx"`
 	File                bool `json:"file"`    // load the source from a file named "c" (LoadFile) instead of from a string
+	ParentCtx           bool `json:"parentctx"` // with thread: the creating state has a context of its own (never done) before NewThread
 	Thread              bool `json:"thread"`  // run the program in a state made by NewThread, the context attached to THAT state
 	Fresh               bool `json:"fresh"`   // no library is opened: running the program is the very first call on the state
 	Foot                bool `json:"foot"`    // record the per-instruction register footprint of the main thread (FramesStep)
@@ -356,6 +357,11 @@ func runProgram(p progIn) (res progOut) {
 	ctx := newDetCtx(budget, p.Fault)
 	R := L // the state that runs the program
 	if p.Opts != nil && (p.Opts.Thread || p.Opts.Resumed) {
+		if p.Opts.ParentCtx {
+			// the thread inherits a base context from its creator and then gets one of its own: from then on only
+			// its own context counts, for itself and for every coroutine it creates
+			L.SetContext(context.Background())
+		}
 		R, _ = L.NewThread()
 	}
 	if p.Opts == nil || !p.Opts.NoContext {
